@@ -109,7 +109,9 @@ def build(tape, prop, tier):
         prec["ZZZ"] = tape.choice([2, 0, 3, 4])
     else:
         s["inv"] = None
-    ntot = npairs + (1 if s["inv"] else 0)
+    # optional cross pair between the first two bases (its quote symbol is a base of another pair)
+    s["cross"] = npairs >= 2 and tape.chance(0.1)
+    ntot = npairs + (1 if s["inv"] else 0) + (1 if s["cross"] else 0)
     all_syms = [QUOTE] + bases + (["ZZZ"] if s["inv"] else [])
     s["prec"] = prec
     # one pair may get its own, coarser, PairInfo (set_pair_info takes precedence over the symbols' precisions)
@@ -277,6 +279,7 @@ def apply_motif(s, tape):
         s["offgrid_loans"] = False
         s["offgrid_init"] = False
         s["inv"] = None
+        s["cross"] = False
         s["prec"].pop("ZZZ", None)
         s["bars"] = s["bars"][:len(s["bases"])]
         s["init"] = {b0: str(D(190) + D("37.5") + D(tape.int(0, 100) - 40)), QUOTE: "100.00"}
